@@ -363,3 +363,79 @@ func vfCacheHits(n *AbsfsNFS) (attr, dir, neg uint64) {
 	defer m.mutex.RUnlock()
 	return m.attrCacheHits, m.dirCacheHits, m.negativeCacheHits
 }
+
+// ---------------- the real connection loop over net.Pipe ----------------
+
+type vfAddrConn struct {
+	net.Conn
+	remote net.Addr
+}
+
+func (c *vfAddrConn) RemoteAddr() net.Addr { return c.remote }
+
+type vfPipe struct {
+	c    net.Conn
+	done chan struct{}
+	xid  uint32
+}
+
+// pipe starts the server's real record-marking connection loop on one end of
+// a net.Pipe and returns the client end. The server sees the given TCP peer.
+func (s *vfSrv) pipe(ip string, port int) *vfPipe {
+	cl, sv := net.Pipe()
+	wrapped := &vfAddrConn{Conn: sv, remote: &net.TCPAddr{IP: net.ParseIP(ip), Port: port}}
+	p := &vfPipe{c: cl, done: make(chan struct{}), xid: 5000}
+	go func() {
+		defer close(p.done)
+		s.srv.handleConnectionWithRecordMarking(wrapped, s.ph)
+	}()
+	return p
+}
+
+func (p *vfPipe) close() {
+	p.c.Close()
+	select {
+	case <-p.done:
+	case <-time.After(10 * time.Second):
+	}
+}
+
+func (p *vfPipe) send(msg []byte) error {
+	p.c.SetWriteDeadline(time.Now().Add(20 * time.Second))
+	_, err := p.c.Write(xdrw.Record(msg))
+	return err
+}
+
+// recv reads one reply record (all fragments).
+func (p *vfPipe) recv(d time.Duration) ([]byte, error) {
+	p.c.SetReadDeadline(time.Now().Add(d))
+	var out []byte
+	for {
+		var h [4]byte
+		if _, err := io.ReadFull(p.c, h[:]); err != nil {
+			return nil, err
+		}
+		v := uint32(h[0])<<24 | uint32(h[1])<<16 | uint32(h[2])<<8 | uint32(h[3])
+		n := int(v & 0x7fffffff)
+		if n > 4<<20 {
+			return nil, fmt.Errorf("reply fragment of %d bytes", n)
+		}
+		buf := make([]byte, n)
+		if _, err := io.ReadFull(p.c, buf); err != nil {
+			return nil, err
+		}
+		out = append(out, buf...)
+		if v&0x80000000 != 0 {
+			return out, nil
+		}
+	}
+}
+
+func (p *vfPipe) call(prog, vers, proc uint32, cred xdrw.Cred, args []byte) (uint32, []byte, error) {
+	p.xid++
+	if err := p.send(append(xdrw.CallHeader(p.xid, prog, vers, proc, cred), args...)); err != nil {
+		return p.xid, nil, err
+	}
+	b, err := p.recv(30 * time.Second)
+	return p.xid, b, err
+}
